@@ -3,7 +3,8 @@
   binding registry, under the same type-ahead machinery as `Ptk.Model.C17`.
 
   Code followed (as it is now, i.e. after
-  "fix: keys left in the key buffer when a handler exits the application become typeahead"):
+  "fix: keys left in the key buffer when a handler exits the application become typeahead" and
+  with proposed_fixes/C17-cpr-inside-key-sequence.diff: CPR responses bypass the key buffer):
     * key_binding/key_processor.py  `KeyProcessor._process` (the generator: append the key or
       note `_Flush`, `_get_matches`, `_is_prefix_of_longer_match`, eager matches, exact match →
       handler, no match → retry loop "longest prefix first, else drop one key", and at the top
@@ -44,12 +45,12 @@ def QK.isCpr : QK → Bool
 
 /-- one entry of the dispatch trace -/
 inductive Disp where
-  | call (ks : List Key)     -- `_call_handler(matches[-1], key_sequence=ks)`
+  | call (ks : List Key) (exited : Bool)   -- `_call_handler(matches[-1], key_sequence=ks)`; did it call `app.exit`
   | drop (k : Key)           -- `del buffer[:1]`: no binding at all for this key
 deriving DecidableEq, Repr
 
 def Disp.keys : Disp → List Key
-  | .call ks => ks
+  | .call ks _ => ks
   | .drop k => [k]
 
 structure KP (σ : Type) where
@@ -65,7 +66,7 @@ variable {σ : Type}
 /-- `_call_handler` with the handler's effect on the application -/
 def callHandler (T : Tbl σ) (p : KP σ) (ks : List Key) : KP σ :=
   let (ed', eff) := T.handler p.ed ks
-  let p' := { p with ed := ed', trace := p.trace ++ [.call ks] }
+  let p' := { p with ed := ed', trace := p.trace ++ [.call ks (eff == .exit)] }
   match eff with
   | .stay => p'
   | .exit => if p.done then { p' with crashed := true } else { p' with done := true }
@@ -75,6 +76,20 @@ def longestMatch (T : Tbl σ) (ed : σ) (buf : List Key) : Nat → Option Nat
   | 0 => none
   | i + 1 => if T.exact ed (buf.take (i + 1)) then some (i + 1) else longestMatch T ed buf i
 
+/-- the `no match found` branch: call the handler of the longest matching prefix of the key
+    buffer, or drop the first key when no prefix has a binding -/
+def retryStep (T : Tbl σ) (p : KP σ) : KP σ :=
+  match longestMatch T p.ed p.buffer p.buffer.length with
+  | some i => { callHandler T p (p.buffer.take i) with buffer := p.buffer.drop i }
+  | none =>
+    match p.buffer with
+    | [] => p
+    | k :: rest => { p with buffer := rest, trace := p.trace ++ [.drop k] }
+
+/-- `is_prefix_of_longer_match` as `_process` uses it: forced to False by a flush -/
+def isPrefix (T : Tbl σ) (flush : Bool) (p : KP σ) : Bool :=
+  if flush then false else T.longer p.ed p.buffer
+
 /-- The body of the `while True` loop of `_process` from the point where a key was appended
     (`flush = false`) or `_Flush` was received (`flush = true`) until the next `yield`.
     `none` = out of fuel (never happens, see `Props.C17Buf.dispatch_total`). -/
@@ -83,18 +98,12 @@ def dispatchFuel (T : Tbl σ) : Nat → Bool → KP σ → Option (KP σ)
   | fuel + 1, flush, p =>
     if p.buffer.isEmpty then some p else
     let ex := T.exact p.ed p.buffer
-    let pre := if flush then false else T.longer p.ed p.buffer
+    let pre := isPrefix T flush p
     if !pre && ex then
       some { callHandler T p p.buffer with buffer := [] }
     else if !pre && !ex then
       -- retry = True
-      let p' :=
-        match longestMatch T p.ed p.buffer p.buffer.length with
-        | some i => { callHandler T p (p.buffer.take i) with buffer := p.buffer.drop i }
-        | none =>
-          match p.buffer with
-          | [] => p
-          | k :: rest => { p with buffer := rest, trace := p.trace ++ [.drop k] }
+      let p' := retryStep T p
       -- top of the loop with retry set
       if !p'.buffer.isEmpty && p'.done then
         some { p' with queue := p'.buffer.map some ++ p'.queue, buffer := [] }
@@ -124,13 +133,22 @@ def dropCprQ : List QK → List QK
 def notEmpty (p : KP σ) : Bool :=
   if p.done then hasCprQ p.queue else !p.queue.isEmpty
 
+/-- `_process_cpr_response`: a CPR response is dispatched to its binding directly; it does not
+    go through the key buffer -/
+def processCpr (T : Tbl σ) (p : KP σ) : KP σ :=
+  if T.exact p.ed [.cpr] then callHandler T p [.cpr] else p
+
+/-- `if is_cpr: self._process_cpr_response(key_press) else: self._process_coroutine.send(key_press)` -/
+def deliver (T : Tbl σ) (p : KP σ) (k : QK) : KP σ :=
+  if k.isCpr then processCpr T p else send T p k
+
 def procStep (T : Tbl σ) (p : KP σ) : Option (KP σ) :=
   if notEmpty p then
-    if p.done then some (send T { p with queue := removeFirstCprQ p.queue } (some .cpr))
+    if p.done then some (processCpr T { p with queue := removeFirstCprQ p.queue })
     else
       match p.queue with
       | [] => none
-      | k :: q => some (send T { p with queue := q } k)
+      | k :: q => some (deliver T { p with queue := q } k)
   else none
 
 def iter (T : Tbl σ) : Nat → KP σ → KP σ
@@ -141,8 +159,8 @@ def iter (T : Tbl σ) : Nat → KP σ → KP σ
     | some p' => iter T n p'
 
 /-- `process_keys()`; every iteration removes one element from the queue, and keys are only pushed
-    back once the result is set (after which only CPR responses are taken), so `length + 1`
-    iterations suffice (`Props.C17Buf.processKeys_stable`). -/
+    back at the moment the result is set (after which only CPR responses are taken), so
+    `length + 1` iterations suffice (`Props.C17Buf.processKeys_stable`). -/
 def processKeys (T : Tbl σ) (p : KP σ) : KP σ := iter T (p.queue.length + 1) p
 
 structure St (σ : Type) where
@@ -244,7 +262,7 @@ def handler (s : S) : List Key → S × Eff
       ({ s with e := { s.e with cur := if s.e.cur = s.e.text.length then 0 else s.e.text.length } }, .stay)
     else (s, .stay)
   | [.other k] =>
-    if k == kCtrlAt then ({ s with sel := true }, .stay)
+    if k == kCtrlAt then ({ s with sel := !s.e.text.isEmpty }, .stay)   -- `if buff.text: start_selection`
     else if k == kEsc then (s, .stay)
     else ({ s with e := Ed.key s.e k }, .stay)
   | _ => (s, .stay)
